@@ -60,7 +60,13 @@ def _world_setup(w: Any, tape: Any, opts: Dict[str, Any], adv_plugin_raises: boo
             return [(httpProtocolTypes.HTTP, r'/boom')]
 
         def handle_request(self, request: Any) -> None:
+            self._boomed = True
             raise RuntimeError('route plugin failure')
+
+        def on_client_connection_close(self) -> None:
+            # ... and it fails again when told that the connection is over (inside the work's shutdown())
+            if getattr(self, '_boomed', False):
+                raise RuntimeError('route plugin failure at close')
 
     canary_route = make_web_route_plugin(7, r'/canary', lambda tg: b'canary-web:' + tg)
     rp = make_reverse_plugin([(r'/rcanary', [b'http://10.0.0.9/base']),
